@@ -20,7 +20,8 @@ def check(tier, seed):
         return {"big": i % 3 == 0, "liveness": True, "stalls": True}
     R.engine(ck, PROP, tier, seed, {"faults": False, "vary": vary}, ("C03",), 160, 8000, proof_ok, nontrivial, "", project=("K",),
              extra_histories=lambda r, exe, tier: [R.gen_queue_full(r.fork("q%d" % i), exe) for i in range(3 if tier == "quick" else 40)]
-             + [R.gen_restart_completion(r.fork("rs%d" % i), exe) for i in range(6 if tier == "quick" else 60)])
+             + [R.gen_restart_completion(r.fork("rs%d" % i), exe) for i in range(6 if tier == "quick" else 60)]
+             + [R.gen_late_target(r.fork("lt%d" % i), exe) for i in range(4 if tier == "quick" else 40)])
     # sustained load (monitor only; the model has no notion of a slow reader): a finished source repeats its final watermark
     # while another source keeps the shared, slowly drained queue of the same target between half full and full; the
     # target acknowledges everything it is sent.  The finished source must be told its final watermark while the load lasts.
@@ -70,5 +71,5 @@ MANIFEST = {
             "the model is tied to the code as for C01. Eventual completeness is checked as progress under the canonical fair schedule: histories end with completion rounds in virtual time and the "
             "source must have received exactly its final high watermark, on the real code and on the model.",
     "note": "Liveness is decided under the canonical schedule and, on the implementation only, under sustained load from a second source sharing a slowly drained target queue (not under arbitrary "
-            "fairness). Trusted as C01.",
+            "fairness). Trusted as C01. Histories include a source stream re-opened while its predecessor is still up (event RO) followed by completion rounds.",
 }
